@@ -110,8 +110,8 @@ def validate(report, *, before: dict, after: dict, logs: list, sast_origins=("so
         both = sorted(set(failed) & set(changed))
         if both:
             out.append(("failed-and-changed", f"{cm}: files both failed and changed: {both}"))
-        if len(changed) != len(set(changed)):
-            out.append(("duplicate-changeset", f"{cm}: several changesets for one file: {sorted(p for p in set(changed) if changed.count(p) > 1)}"))
+        # several changesets of one codemod for one file are legitimate (a source edit and a dependency written into a
+        # setup.py that is also a source file): the property does not forbid them and C03 checks that they compose
         if cm.split(":")[0] in sast_origins:
             if not (r.get("detectionTool") or {}).get("name"):
                 out.append(("sast-without-detection-tool", f"{cm}: no detectionTool.name"))
